@@ -77,6 +77,7 @@ THEOREMS = [
     "VK.C08_tiers_rep",
     "VK.C08_domsets_rep",
     "VK.C08_condoborda_rep",
+    "VK.C08_toptwo_rep",
 ]
 RULE = ("cases = deterministic configuration of every ranking / scoring / pairwise rule (as in C10) on a random profile; "
         "five transformations of the input: rename the candidates by a random bijection into a second name pool (sort "
